@@ -33,6 +33,8 @@ type ABCIGenesis struct {
 		Type    string `json:"type"`
 		Genesis bool   `json:"genesis"`
 	} `json:"pools"`
+	// UpperOwners lists the pool owners (account indexes) that the genesis file spells in upper case bech32
+	UpperOwners []int `json:"upper_owners,omitempty"`
 }
 
 func wholeUnits(ns int64) (int64, string) {
@@ -74,6 +76,11 @@ func GenABCIGenesis(t *rapid.T) ABCIGenesis {
 			LockS: []int64{5, 30, 3600, 86400 * 30}[rapid.IntRange(0, 3).Draw(t, l+"_lock")], Type: g.VTypes[rapid.IntRange(0, len(g.VTypes)-1).Draw(t, l+"_vt")].Name,
 			Genesis: rapid.Bool().Draw(t, l+"_gen")})
 	}
+	for _, o := range []int{1, 2} {
+		if n > 0 && rapid.IntRange(0, 3).Draw(t, fmt.Sprintf("upperOwner%d", o)) == 0 {
+			g.UpperOwners = append(g.UpperOwners, o)
+		}
+	}
 	return g
 }
 
@@ -92,7 +99,13 @@ func (g ABCIGenesis) Spec() GenesisSpec {
 	var ownersOrder []int
 	for _, p := range g.Pools {
 		if byOwner[p.Owner] == nil {
-			byOwner[p.Owner] = &vestingtypes.AccountVestingPools{Owner: KeyAcc(p.Owner).Addr.String()}
+			spelled := KeyAcc(p.Owner).Addr.String()
+			for _, u := range g.UpperOwners {
+				if u == p.Owner {
+					spelled = strings.ToUpper(spelled)
+				}
+			}
+			byOwner[p.Owner] = &vestingtypes.AccountVestingPools{Owner: spelled}
 			ownersOrder = append(ownersOrder, p.Owner)
 		}
 		amt := sdk.NewIntFromBigInt(bigFromStr(p.Amount))
